@@ -179,6 +179,8 @@ func corrCodec(prop string, outDir string, seed uint64, tier string, withEdits b
 	imports := []string{"GC.Codec.Types", "GC.Codec.Codec"}
 	csM := newCaseSet(outDir, prop+"_marshal", imports, "list sfield * sval * obs bytes", "ok_marshal", 1500)
 	csU := newCaseSet(outDir, prop+"_unmarshal", imports, "list sfield * bytes * obs (list (list nat * fval))", "ok_unmarshal", 1500)
+	// the class round-trip statement, evaluated by the model on every generated (layout, value)
+	csK := newCaseSet(outDir, prop+"_class", append(imports, "GC.Codec.Class"), "list sfield * sval * obs bytes", "test_class_rt", 1500)
 	var types []codecCase
 	nWild, nClass, nVals := 120, 160, 6
 	if tier == "thorough" {
@@ -202,6 +204,7 @@ func corrCodec(prop string, outDir string, seed uint64, tier string, withEdits b
 		def := fmt.Sprintf("Definition %s : list sfield := %s.", tc.tname, structDesc(tc.t))
 		csM.prelude = append(csM.prelude, def)
 		csU.prelude = append(csU.prelude, def)
+		csK.prelude = append(csK.prelude, def)
 	}
 	rep.Distribution["types_wild"] = nWild
 	rep.Distribution["types_class"] = nClass
@@ -226,6 +229,7 @@ func corrCodec(prop string, outDir string, seed uint64, tier string, withEdits b
 		svd, _ := svalDesc(p)
 		s, err, pan := marshalObs(p.Interface())
 		csM.add("("+tc.tname+", "+svd+", "+obsMarshalCoq(s, err, pan)+")", map[string]interface{}{"type": tc.t.String(), "value": fmt.Sprintf("%+v", p.Elem().Interface()), "kind": kind})
+		csK.add("("+tc.tname+", "+svd+", "+obsMarshalCoq(s, err, pan)+")", map[string]interface{}{"type": tc.t.String(), "value": fmt.Sprintf("%+v", p.Elem().Interface()), "kind": "class statement"})
 		rep.count("m:"+tc.tname+svd, true)
 		rep.bump("marshal_" + kind)
 		if pan != nil {
@@ -307,7 +311,8 @@ func corrCodec(prop string, outDir string, seed uint64, tier string, withEdits b
 	}
 	must(csM.flush())
 	must(csU.flush())
-	rep.CaseSets = []string{prop + "_marshal", prop + "_unmarshal"}
+	must(csK.flush())
+	rep.CaseSets = []string{prop + "_marshal", prop + "_unmarshal", prop + "_class"}
 	rep.Rule = "struct types generated with reflect.StructOf over the grammar of kinds x tag options (wild: anything; class: built inside the unambiguous class), hand-written shapes (pointers, embedding, shadowing, text marshalers, unexported/ignored fields) and the shipped scheme structs; per value: Marshal outcome (string or projected error) and Unmarshal outcome of the produced string (all leaf values or projected error) are compared with the Coq model; the property oracle (round trip and stability) is applied to in-class layouts with presentable values. Every case counts as non-trivial; distinct by (type, value) / (type, string)."
 	return rep
 }
